@@ -437,7 +437,11 @@ impl InterfaceGenerator<'_> {
                         self.push_str(">");
                     }
                     TypeDefKind::Unknown => unreachable!(),
-                    TypeDefKind::FixedLengthList(..) => todo!(),
+                    TypeDefKind::FixedLengthList(t, size) => {
+                        self.push_str("list<");
+                        self.print_ty(t);
+                        self.push_str(&format!(", {size}>"));
+                    }
                     TypeDefKind::Map(key, value) => {
                         self.push_str("map<");
                         self.print_ty(key);
